@@ -262,6 +262,10 @@ PROPS = {
         "rule": "texts: canonical records (Shredder and plain) of accepted boards; every single-field replacement from a per-field catalogue of malformed / unsupported / grey values; truncations, extensions, extra spaces; removed / duplicated ranks; random character edits; random strings; each through from_fen(false), from_fen(true) and FromStr",
         "assumptions": VALUE_ASSUME,
         "jobs": [
+            {"type": "gen", "name": "ep-records", "gen_spec": "Gen_Ep", "driver": "parse", "spec": "Trace_Parse", "checks": ["C08"], "seed_offset": 53,
+             "args": {"common": {"bases": 0, "random": 0}},
+             "params": {"quick": {"gencfg": {"mod": 40, "rem": 0, "kmod": 8, "krem": 0, "unsound": 1}, "workers": 8},
+                        "thorough": {"gencfg": {"mod": 6, "rem": 0, "kmod": 1, "krem": 0, "unsound": 1}, "workers": 16, "xmx": "10g", "timeout": 3600}}},
             {"type": "model", "name": "model-parser", "spec": "MC_Parse", "exhaustive": True,
              "params": {"quick": {"workers": 12, "xmx": "6g", "parse_mc": {"bases": 2, "alphabet": [32, 47, 45, 48, 49, 56, 57, 119, 75, 72, 104, 101, 54, 80, 120, 43]}},
                         "thorough": {"workers": 16, "xmx": "10g", "timeout": 5000, "parse_mc": {"bases": 24, "alphabet": [32, 47, 45, 48, 49, 56, 57, 119, 98, 75, 81, 107, 113, 72, 65, 104, 97, 101, 54, 51, 80, 112, 82, 120, 43]}}}},
